@@ -190,6 +190,15 @@ CHECKS = [
              "(bit-identical); draw_samples (linear and geometric, real CG) yields the bit-identical sample list and random state "
              "on 1..T tasks.",
      "design_ref": "DESIGN.md 4/C22"},
+    {"property_id": "C21", "engine": "B", "category": "other", "technique": TECH_B + "; the classic random module is executed for real over bounded API histories whose choices are z3 integers concretised by solver-decided forking, next to a reference model (differential, bit-exact generator states)",
+     "note": NOTE_B + " Bounds: 2-3 samples, 2 parameters; histories of 3 (5 thorough) operations, nesting 2 (3). Bit-identity across processes is not modelled (no hidden inputs are encoded).",
+     "text": "Bounded symbolic verification: the sampled KL value, gradient and metric action of nifty.re (_kl_vg, _kl_met) traced with "
+             "map = smap / lmap / vmap, jitted or not, are equal for ALL positions, samples, tangents and Gaussian-likelihood parameters "
+             "(identity / exp / square model) and equal the explicit sample average.  Every history of the nifty.cl.random API within "
+             "the bound (draws, nested Context by seed or SeedSequence left normally or by an exception, spawn_sseq) leaves the "
+             "previous generator object current with its previous state, and draws inside a context are bit-identical to a fresh "
+             "generator with the context's seed.",
+     "design_ref": "DESIGN.md 4/C21"},
 ]
 
 ALL = [f"C{i:02d}" for i in range(1, 37)]
